@@ -1,4 +1,90 @@
+import EE.Lemmas.ParserSound
+import EE.Props.C10
+import EE.Props.C09
 import EE.Model.Program
+/-! # C05 — malformed input is rejected, never silently repaired
+
+The specification is the grammar `EE.Spec.GProg` (file EE/Spec/Grammar.lean; read it first — it
+is the documented grammar, with exactly the leniency the property allows). **Soundness**: whatever
+the parser accepts is a sentence of that grammar, with *every token* of the input placed in the
+tree in its own role: the token list is literally the concatenation the grammar prescribes
+(no token treated as another, none dropped), closers match their openers, separators are the
+separators, operators in prefix position are registered prefix operators, and so on — all of this
+is what "`GProg regs toks es`" says. -/
 namespace EE.Props.C05
-theorem placeholder : True := trivial
+open EE EE.Spec
+
+/-- **Parser soundness**, for every registry with positive infix precedences, every limit ≥ 1
+and every token list. -/
+theorem parse_sound (regs : Regs) (hp : RegsPos regs) (lim : Nat) (hl : 1 ≤ lim) (toks : List Tok) (a : AST)
+    (h : parseTokens regs lim toks = .ok a) : ∃ es, GProg regs toks es ∧ a = programTree es := by
+  unfold parseTokens at h
+  obtain ⟨⟨xs, hx⟩, hstm, h2⟩ := Res.bind_eq_ok h
+  try dsimp only at h2
+  obtain ⟨hg, _, _⟩ := parseStmts_sound regs lim hl hp _ toks xs hx hstm
+  refine ⟨xs, hg, ?_⟩
+  cases xs with
+  | nil =>
+    simp only at h2
+    obtain ⟨_, _, h3⟩ := Res.bind_eq_ok h2
+    cases h3; rfl
+  | cons a rest =>
+    cases rest with
+    | nil => simp only at h2; cases h2; rfl
+    | cons b rest' =>
+      simp only at h2
+      obtain ⟨_, _, h3⟩ := Res.bind_eq_ok h2
+      cases h3; rfl
+
+/-- The built-in registry has positive precedences (regenerated table). -/
+theorem builtin_pos : RegsPos Regs.builtin := by
+  intro n c h
+  have hm : (n, c) ∈ Regs.builtin.inf := by
+    have : ∀ (l : List (Name × InfixCfg)), alookup n l = some c → (n, c) ∈ l := by
+      intro l
+      induction l with
+      | nil => intro h; simp at h
+      | cons x xs ih =>
+        obtain ⟨k, v⟩ := x
+        intro h
+        rw [alookup_cons] at h
+        by_cases e : k = n
+        · simp only [e, if_true, Option.some.injEq] at h; subst h; subst e; simp
+        · simp only [e, if_false] at h; simp [ih h]
+    exact this _ h
+  have hall : ∀ e ∈ Regs.builtin.inf, 1 ≤ e.2.prec := by decide
+  exact hall _ hm
+
+/-- **End to end**: if `parse_expression` accepts a string, the string tokenizes (tokens tile it,
+C10) and its token sequence is a sentence whose tree is the result. -/
+theorem accepted_is_sentence (regs : Regs) (hp : RegsPos regs) (s : Text) (a : AST) (h : parseProgram regs s = .ok a) :
+    ∃ sts es, tokenize regs s = .ok sts ∧ EE.Props.C10.Tiling 0 s sts ∧
+      GProg regs (sts.map (·.tok)) es ∧ a = programTree es := by
+  unfold parseProgram at h
+  obtain ⟨sts, htok, h2⟩ := Res.bind_eq_ok h
+  obtain ⟨es, hg, he⟩ := parse_sound regs hp maxDepth (by decide) _ a h2
+  exact ⟨sts, es, htok, EE.Props.C10.tiling regs s sts htok, hg, he⟩
+
+/-- Lexical rejections: an unterminated string and a malformed number are errors of the tokenizer
+(`lexString` fails without a closing quote; a number token exists only if `Decimal::from_str`
+accepts the whole digit run, and it accepts only `digit+ ('.' digit*)?` — EE.Props.C09.invalid_rejected). -/
+theorem unterminated_string_rejected (q : Char) (cs : Text) (start : Nat) (h : scanString q cs = none) :
+    lexString q cs start = .err .unterminatedString := by
+  simp [lexString, h]
+
+theorem malformed_number_rejected (c : Char) (cs : Text) (start : Nat) (t : SpTok) (rest : Text)
+    (h : lexNumber c cs start = .ok (t, rest)) :
+    ∃ d, t.tok = .num d ∧ Dec.ofText (c :: (scanNumber c cs).1) = .ok d := by
+  unfold lexNumber at h
+  split at h <;> try (cases h; done)
+  rename_i d hd
+  cases h
+  exact ⟨d, rfl, hd⟩
+
+/-! The concrete malformed inputs the property cites (`[1)2]`, `{1,2}`, `f(1]2)`, `true ? 1 , 2`,
+`* 3`, `a : b`, `1;;2`, `f(1,)`, `'abc`, `1.2.3`, `(1`, …) are run through the model's compiled
+definitions and the real crate by the check's "malformed corpus" stream (kernel evaluation of the
+parser on concrete inputs is impractically slow: the functions are structurally recursive on a
+fuel argument through a large mutual block). -/
+
 end EE.Props.C05
